@@ -80,6 +80,8 @@ SHEETS = {
                'b{xonly:1}@media print{c{top:red;top:0}e{bottom:x}}',
     'vars': '@variables{C:red;d:1px}@variables{d:2px;e:"s";/*vc*/}a{color:var(C);left:var(d);top:var(nope);content:var(e);margin:var(d) var(d);right:var(nope, 3px)}'
             '@media print{b{left:var(d)}}',
+    # a variable declared twice in one block, the spellings differing by case / by an escape: the later value is the value
+    'vars3': '@variables{tone:red;t\\one:blue;W:1px;w:2px;k:1;k:2}a{color:var(tone);left:var(w);z-index:var(k)}',
     'vars2': '@variables{c:red /*brand*/;g:rgb(1, /*g*/ 2, 3);w:1px}a{color:var(c);background-color:var(g);left:var(w);top:var(w) /*t*/}',
     'imports': '@charset "utf-8";@import "s.css";@import url(u.css) print,tv;@import \'s2.css\' all;@import url("q.css") tv "nm";a{color:red}',
     'literal': '@i\\mport "i.css";@IMPORT "j.css";@NameSpace l "http://l";@VARIABLES{Xy:1px}@MEDIA print{l|a{c\\olor:red !IMPORTANT;COLOR:blue;color:green!Im\\portant}}'
